@@ -142,14 +142,19 @@ def run_history(ctx, rng, length, hid):
                 elif h < 0.5 and known:
                     r.update(if_match_present=True, if_match_value=rng.choice(known))
                 elif h < 0.6:
-                    r.update(if_match_present=True, if_match_value=rng.choice(['"0000"', "*", 'W/"1"', '"a", "b"', ""]))
-                    if r["if_match_value"] == "":
-                        del r["if_match_present"], r["if_match_value"]
+                    # malformed / unusual texts; what an empty header, a weak validator of the current ETag, a list containing it or
+                    # a padded copy mean is the Lean model's business (CondHeaders), not the generator's
+                    r.update(if_match_present=True, if_match_value=rng.choice(
+                        ['"0000"', "*", 'W/"1"', '"a", "b"', ""] + ([cur + " ", " " + cur, "W/" + cur, cur + ', "x"', cur.strip('"'), cur.upper()] if cur else [])))
                 elif h < 0.7 and r["method"] == "PUT":
                     r["if_none_match_star"] = True
+                else:
+                    davsim.vary_wire(rng, r, p=0.5)
+            elif r["method"] == "MOVE":
+                davsim.vary_wire(rng, r, p=0.4)
             reqs.append(r)
             before = sim.real_dump()
-            true_before = cache_free_etag(sim.app, "/" + "/".join(r["path"])) if r.get("if_match_present") else None
+            true_before = cache_free_etag(sim.app, "/" + "/".join(r["path"])) if r.get("if_match_present") and r.get("if_match_value") else None
             obs, ans, diffs = sim.step(r, "u")
             st = obs["status"]
             case = {"history": reqs, "storage_options": (variant or {}).get("storage", {})}
@@ -169,6 +174,18 @@ def run_history(ctx, rng, length, hid):
                         bad = {h: (mine.get(h), ref.get(h)) for h in set(mine) | set(ref) if mine.get(h) != ref.get(h)}
                         ctx.violation("after %s the server reports ETags that are not those of the stored contents (reported, read without item cache): %s"
                                       % (r["method"], bad), case)
+            # the handlers' tests on the header text against the Lean model's (CondHeaders.putRefuses / deleteRefuses), given the
+            # target's ETag text before the request
+            if r["method"] in ("PUT", "DELETE") and not r.get("as_collection") and (st == 412 or st < 300):
+                w = davsim.wire_of(r)
+                tb = next((it["etag_raw"] for e in before if e["path"] == r["path"][:-1] for it in e["items"] if it["href"] == r["path"][-1]), None)
+                if not (r["method"] == "DELETE" and tb is None):
+                    dg = ctx.driver.ask1(dict(w, m="condheaders", cur=tb, table=[]))
+                    want = dg["put_refuses"] if r["method"] == "PUT" else dg["delete_refuses"]
+                    if want != (st == 412):
+                        ctx.disagree("conditional headers: %s with %s on a resource with ETag %r answered %d, the model %s" % (
+                            r["method"], {k: v for k, v in w.items() if v is not None}, tb, st, "refuses (412)" if want else "goes ahead"),
+                            case, [], None)
             # oracle for the conditions themselves
             if r["method"] in ("PUT", "DELETE") and not r.get("as_collection") and st < 300:
                 tgt_before = None
@@ -177,12 +194,15 @@ def run_history(ctx, rng, length, hid):
                         for it in e["items"]:
                             if it["href"] == r["path"][-1]:
                                 tgt_before = it["etag_raw"]
-                if r.get("if_match_present") and not (r["method"] == "DELETE" and r["if_match_value"] == "*") and tgt_before != r["if_match_value"]:
-                    ctx.violation("request with If-Match %r carried out although the current ETag was %r" % (r["if_match_value"], tgt_before), case)
-                if r.get("if_match_present") and r["if_match_value"] != "*" and true_before != r["if_match_value"]:
+                # (an empty header names no ETag: PUT treats it as absent, DELETE refuses it - neither is a conditional write gone wrong)
+                imv = davsim.wire_of(r)["if_match"]
+                case = dict(case, history=list(reqs))
+                if imv and not (r["method"] == "DELETE" and imv == "*") and tgt_before != imv:
+                    ctx.violation("request with If-Match %r carried out although the current ETag was %r" % (imv, tgt_before), case)
+                if imv and imv != "*" and r.get("if_match_present") and true_before != imv:
                     ctx.violation("lost update: a request with If-Match %r was carried out although the stored resource (read without the item "
-                                  "cache) has the ETag %r" % (r["if_match_value"], true_before), case)
-                if r.get("if_none_match_star") and tgt_before is not None:
+                                  "cache) has the ETag %r" % (imv, true_before), case)
+                if davsim.wire_of(r)["if_none_match"] == "*" and tgt_before is not None:
                     ctx.violation("PUT with If-None-Match: * carried out although the resource existed", case)
             if r["method"] == "PUT" and not r.get("as_collection") and st == 201:
                 known.append(obs["etag_raw"])
